@@ -16,7 +16,7 @@ SCHEMES = ["{locale}/{res_id}", "res/{locale}/{res_id}", "{res_id}", "{locale}",
            "l={locale}&r={res_id}", "{res_id}_{locale}_{res_id}", "{locale}{locale}", "{res_id}}{{locale}"]
 LOCALES = ["en-US", "pl", "fr", "de-AT", "sr-Cyrl", "en"]
 RES_IDS = ["main.ftl", "extra.ftl", "sub/menu.ftl", "{locale}", "{res_id}", "a{locale}b.ftl", "errors.ftl", "m"]
-IDS = ["A", "b", "C-D", "key_1"]
+IDS = ["A", "b", "C-D", "key_1", "Z9", "msg-x"]
 
 
 def path_of(scheme, locale, rid):
@@ -82,11 +82,17 @@ class C19(Base):
         steps = []
         niter = 0
 
-        def mutation():
-            p = hx(rng.choice(paths))
+        def resource():
+            # small resources over 6 ids: most bundles assemble cleanly, duplicates still frequent
+            if rng.random() < 0.2:
+                return g.resource()
+            return ",".join(g.desc() for _ in range(rng.choice([1, 1, 2, 2, 3])))
+
+        def mutation(p=None):
+            p = hx(p if p is not None else rng.choice(paths))
             r = rng.random()
             if r < 0.62:
-                return "w:%s:%s" % (p, g.resource())
+                return "w:%s:%s" % (p, resource())
             if r < 0.72:
                 return "bad:" + p
             if r < 0.82:
@@ -101,8 +107,9 @@ class C19(Base):
             k = rng.choice([0, 1, 1, 2, 2, 3, 4])
             return [rng.choice(rids) for _ in range(k)]
 
-        for _ in range(rng.randint(0, len(paths))):
-            steps.append(mutation())
+        for p in paths:
+            if rng.random() < 0.7:
+                steps.append(mutation(p))
         n = nsteps or rng.randint(4, 16)
         for _ in range(n):
             r = rng.random()
@@ -123,7 +130,7 @@ class C19(Base):
         return "rm %s %s %s" % (hx(scheme), hl(IDS), ";".join(steps))
 
     def generate(self, rng, tier):
-        n = 2500 if tier == "quick" else 60000
+        n = 5000 if tier == "quick" else 60000
         for _ in range(n):
             yield self.scenario(rng)
         if tier == "thorough":
